@@ -45,6 +45,59 @@ func treeArgs(t Tree) [][]byte {
 	return out
 }
 
+// renderInvocation spells a structured invocation (see the driver's cli.run) as an argument vector; which of the
+// equivalent spellings of each option is used, and where the options stand, is derived from the invocation itself
+func renderInvocation(a [][]byte) []string {
+	h := 0
+	for _, x := range a[:14] {
+		for _, c := range x {
+			h = h*31 + int(c)
+		}
+		h = h*7 + 3
+	}
+	if h < 0 {
+		h = -h
+	}
+	next := func(n int) int { v := h % n; h = h/n + 17; return v }
+	var global, flags, pos []string
+	if len(a[0]) > 0 {
+		v := string(a[0][1:])
+		global = [][]string{{"-o", v}, {"--output", v}, {"--output=" + v}, {"-o" + v}}[next(4)]
+	}
+	words := map[string][]string{"generate": {"regex", "generate"}, "update": {"regex", "update"}, "compare": {"regex", "compare"}, "format": {"regex", "format"},
+		"renumber": {"util", "renumber-tests"}, "copyright": {"chore", "update-copyright"}}[string(a[1])]
+	all, check := bytes.Contains(a[2], []byte("a")), bytes.Contains(a[2], []byte("c"))
+	switch {
+	case all && check:
+		flags = append(flags, [][]string{{"-a", "-c"}, {"-ca"}, {"-ac"}, {"--check", "--all"}, {"--all", "-c"}}[next(5)]...)
+	case all:
+		flags = append(flags, []string{"-a", "--all"}[next(2)])
+	case check:
+		flags = append(flags, []string{"-c", "--check"}[next(2)])
+	}
+	if len(a[3]) > 0 {
+		v := string(a[3][1:])
+		flags = append(flags, [][]string{{"-v", v}, {"--version", v}, {"--version=" + v}}[next(3)]...)
+	}
+	if string(a[1]) == "copyright" {
+		y := string(a[5])
+		flags = append(flags, [][]string{{"-y", y}, {"--year", y}, {"--year=" + y}}[next(3)]...)
+	}
+	for _, x := range strings.Split(string(a[13]), "\x1f")[1:] {
+		pos = append(pos, x)
+	}
+	var argv []string
+	switch next(3) {
+	case 0:
+		argv = append(append(append(append(argv, global...), words...), flags...), pos...)
+	case 1:
+		argv = append(append(append(append(argv, words...), pos...), flags...), global...)
+	default:
+		argv = append(append(append(append(argv, words...), global...), pos...), flags...)
+	}
+	return argv
+}
+
 var reCompareVerdict = regexp.MustCompile(`^Regex of (\S+) has (not )?changed!?$`)
 
 func implCLI(env *Env, op Op) Result {
@@ -89,6 +142,9 @@ func implCLI(env *Env, op Op) Result {
 	case "cli.compare":
 		files = a[7:]
 		argv = []string{"regex", "compare", string(a[6])}
+	case "cli.run":
+		files = a[14:]
+		argv = renderInvocation(a)
 	default:
 		return Result{Status: "bad-op"}
 	}
@@ -131,6 +187,14 @@ func implCLI(env *Env, op Op) Result {
 	out := [][]byte{boolB(c.exit == 0)}
 	if op.Name == "cli.generate" {
 		return Result{Status: "ok", Out: append(out, c.stdout)}
+	}
+	if op.Name == "cli.run" {
+		// exit status, stdout of generate (nothing else is compared on stdout), the tree
+		so := []byte{}
+		if string(a[1]) == "generate" && c.exit == 0 {
+			so = c.stdout
+		}
+		out = append(out, so)
 	}
 	if op.Name == "cli.compareAll" || op.Name == "cli.compare" {
 		// the verdicts, in the order printed (the difference display is not part of the model)
@@ -220,6 +284,70 @@ func genCliTreeCases(r *rand.Rand, n int) []Case {
 			continue
 		}
 		cases = append(cases, Case{Kind: "tree:all-commands", Ops: ops})
+	}
+	return cases
+}
+
+// invocationCases: structured invocations (command, positional arguments, which flags, option values — valid and not)
+// on generated trees, rendered in varying spellings: the wiring of cmd/*.go (argument validators, PreRunE, which
+// function runs with which flags) against Crs.Cli.run. Exit status, the tree afterwards, generate's stdout.
+func invocationCases(r *rand.Rand, n int) []Case {
+	var cases []Case
+	opt := func(v string, given bool) []byte {
+		if !given {
+			return []byte{}
+		}
+		return []byte("=" + v)
+	}
+	for i := 0; i < n; i++ {
+		ct := genCRSTree(r, 1+r.Intn(3))
+		ra := pick(r, ct.ra)
+		cfg := cfgOfTree(ct)
+		files := treeArgs(ct.t)
+		var ops []Op
+		for k := 0; k < 10; k++ {
+			cmd := pick(r, []string{"generate", "update", "compare", "format", "renumber", "copyright", "update", "compare"})
+			outGiven := chance(r, 0.5)
+			outV := pick(r, []string{"text", "github", "github", "GitHub", "json", "", "TEXT", "git hub"})
+			flags := pick(r, []string{"", "", "a", "a", "c", "ac", "a"})
+			var pos []string
+			switch weighted(r, []int{5, 5, 1, 1}) {
+			case 0:
+			case 1:
+				pos = []string{pick(r, []string{ra.arg, ra.arg, ra.id, ra.arg + ".ra", "999999", "94210", "-"})}
+			case 2:
+				pos = []string{ra.arg, ra.arg}
+			default:
+				pos = []string{""}
+			}
+			if cmd == "generate" && len(pos) == 1 && pos[0] == "-" {
+				pos = []string{ra.arg}
+			}
+			verGiven := cmd == "copyright" && chance(r, 0.8)
+			ver := pick(r, []string{"4.5.0", "v4.6.0-rc1", "4.7.0+build", "not.a.version", "", "4", "04.1", "4.5.0 "})
+			year := pick(r, []string{"2031", "2031", "31", "20311", "year"})
+			if cmd != "copyright" {
+				verGiven = false
+				if strings.Contains(flags, "c") && (cmd == "generate" || cmd == "update" || cmd == "compare") {
+					flags = strings.ReplaceAll(flags, "c", "") // these commands have no --check flag: cobra's usage error is not the model's business
+				}
+			} else {
+				flags, pos = "", nil
+			}
+			if cmd == "generate" {
+				flags = "" // no --all either
+			}
+			posArg := ""
+			for _, x := range pos {
+				posArg += "\x1f" + x
+			}
+			args := [][]byte{opt(outV, outGiven), []byte(cmd), []byte(flags), opt(ver, verGiven), []byte("0"), []byte(year), []byte("LINT")}
+			args = append(args, cfg...)
+			args = append(args, []byte(posArg))
+			args = append(args, files...)
+			ops = append(ops, Op{"cli.run", args})
+		}
+		cases = append(cases, Case{Kind: "invocations", Ops: ops})
 	}
 	return cases
 }
